@@ -325,6 +325,25 @@ func (dg *Graph) PruneSuccess() {
 
 // pruneCtors removes constructors from the graph that do not have failing Results.
 func (dg *Graph) pruneCtors(failed map[CtorID]struct{}) {
+	// Results of failed constructors and missing types stay in the graph.
+	// A constructor in another scope may produce a result with the same
+	// key: pruning that constructor must not remove the edges to the node
+	// that stays.
+	kept := make(map[nodeKey]struct{})
+	for _, c := range dg.Ctors {
+		if _, ok := failed[c.ID]; ok {
+			for _, r := range c.Results {
+				kept[r.nodeKey()] = struct{}{}
+			}
+		}
+	}
+	for _, r := range dg.Failed.RootCauses {
+		kept[r.nodeKey()] = struct{}{}
+	}
+	for _, r := range dg.Failed.TransitiveFailures {
+		kept[r.nodeKey()] = struct{}{}
+	}
+
 	var pruned []*Ctor
 	for _, c := range dg.Ctors {
 		if _, ok := failed[c.ID]; ok {
@@ -333,7 +352,7 @@ func (dg *Graph) pruneCtors(failed map[CtorID]struct{}) {
 		}
 		// If a constructor is deleted, the constructor's stale result references need to
 		// be removed from that result's Group and/or consuming constructor.
-		dg.pruneCtorParams(c, dg.consumers)
+		dg.pruneCtorParams(c, dg.consumers, kept)
 		dg.pruneGroupResults(c, dg.groupMap)
 		delete(dg.ctorMap, c.ID)
 	}
@@ -360,8 +379,11 @@ func (dg *Graph) pruneGroups(failed map[nodeKey]struct{}) {
 // pruneCtorParams removes results of the constructor argument that are still referenced in the
 // Params of constructors that consume those results. If the results in the constructor are found
 // in the params of a consuming constructor that result should be removed.
-func (dg *Graph) pruneCtorParams(c *Ctor, consumers map[nodeKey][]*Ctor) {
+func (dg *Graph) pruneCtorParams(c *Ctor, consumers map[nodeKey][]*Ctor, kept map[nodeKey]struct{}) {
 	for _, r := range c.Results {
+		if _, ok := kept[r.nodeKey()]; ok {
+			continue
+		}
 		for _, ctor := range consumers[r.nodeKey()] {
 			ctor.removeParam(r.nodeKey())
 		}
